@@ -160,9 +160,9 @@ structure St where
   hintExtra : Bool := false
   cv : Nat := 0
   ci : Nat := 0
-  /-- `longestValidSegmentFraction_` as last set; `ctx.frac` is what the last `setup()` turned into
-  `longestValidSegment_` (the setter alone changes nothing a motion check reads) -/
-  pendFrac : Float := 0.01
+  /-- `longestValidSegmentFraction_` and the bounds as last set; `ctx` is what the last `setup()` turned into
+  `maxExtent_` / `longestValidSegment_` (the setters alone change nothing a motion check reads) -/
+  pend : Ctx := ⟨0.01, 0.0, 1.0⟩
   /-- the validator `SpaceInformation::setDefaultMotionValidator` installs for this space -/
   defVal : Validator := .discrete
   nest : Option NestArm := none
@@ -199,7 +199,7 @@ def init (ts : List String) : Option St :=
     let ctx : Ctx := ⟨frac, lo, hi⟩
     let mk := fun (sp : Option Sp) (nreals : Nat) (v : Validator) =>
       some ({ sp := sp, nreals := nreals, ctx := ctx, val := if valn == "discrete" then .discrete else v,
-              pendFrac := frac, defVal := v } : St)
+              pend := ctx, defVal := v } : St)
     match space, f with
     | "r1", [a] => mk (some (.rv 1 a)) 1 .discrete
     | "rn", [a] => mk (some (.rv dim a)) dim .discrete
@@ -304,22 +304,22 @@ def predOf (st : St) (ownInv : Option (List Nat)) (n : Nat) (a b : List Float) :
 
 /-- the configuration machine's view of the driver state (`OmplModel.Motion.Config`): the reconfiguration ops and
 the checks go through `Config.step` / `Config.checkNow`, which is what `Props/C05.lean` (`history_*`) is about. -/
-def St.cfg (st : St) : Config Float (Option Sp × Nat) :=
-  ⟨st.gen, st.pendFrac, st.ctx.frac, (st.sp, st.topFac), st.val, st.cv, st.ci⟩
+def St.cfg (st : St) : Config Ctx (Option Sp × Nat) :=
+  ⟨st.gen, st.pend, st.ctx, (st.sp, st.topFac), st.val, st.cv, st.ci⟩
 
-def St.withCfg (st : St) (c : Config Float (Option Sp × Nat)) : St :=
-  { st with gen := c.checker, pendFrac := c.pending, ctx := { st.ctx with frac := c.effective }, sp := c.factor.1,
+def St.withCfg (st : St) (c : Config Ctx (Option Sp × Nat)) : St :=
+  { st with gen := c.checker, pend := c.pending, ctx := c.effective, sp := c.factor.1,
             topFac := c.factor.2, val := c.val, cv := c.cv, ci := c.ci }
 
 /-- the world outside the configuration, for the pair and hints at hand. -/
-def envOf (st : St) (h : Hints) (v : Nat → Bool) : Env Float (Option Sp × Nat) (List Float × List Float) :=
+def envOf (st : St) (h : Hints) (v : Nat → Bool) : Env Ctx (Option Sp × Nat) (List Float × List Float) :=
   { seg := fun fac eff d =>
-      (countOf { st with sp := fac.1, topFac := fac.2, ctx := { st.ctx with frac := eff } } h d.1 d.2).1
+      (countOf { st with sp := fac.1, topFac := fac.2, ctx := eff } h d.1 d.2).1
     pathOk := fun d => (countOf st h d.1 d.2).2
     valid := fun _ _ j => v j }
 
 /-- a reconfiguration op, executed by the model's `Config.step`. -/
-def St.reconf (st : St) (op : Op Float (Option Sp × Nat) (List Float × List Float)) : St :=
+def St.reconf (st : St) (op : Op Ctx (Option Sp × Nat) (List Float × List Float)) : St :=
   st.withCfg ((st.cfg.step (envOf st {} (fun _ => true)) op).1)
 
 def oneCall (st : St) (op : String) (h : Hints) (a b : List Float) (ownInv : Option (List Nat))
@@ -456,8 +456,15 @@ def step (st : St) (ts : List String) : St × String :=
     | some x =>
       if st.constrained then (st, "bad-op")
       else if x < dblEps || x > 1.0 - dblEps then (st, "bad-op")
-      else (st.reconf (.setResolution x), "ok")      -- read by the next setup() only
+      else (st.reconf (.setResolution { st.pend with frac := x }), "ok")      -- read by the next setup() only
     | none => (st, "bad-op")
+  | ["setbounds", lo, hi] =>
+    -- setBounds on every RealVector part of the space: the extent (hence longestValidSegment_) follows at the next setup()
+    match parseFloatBits? lo, parseFloatBits? hi with
+    | some l, some h =>
+      if st.constrained || !(l < h) then (st, "bad-op")
+      else (st.reconf (.setResolution { st.pend with lo := l, hi := h }), "ok")
+    | _, _ => (st, "bad-op")
   | ["setfac", s, k] =>
     match s.toNat?, k.toNat? with
     | some slot, some k =>
@@ -488,7 +495,7 @@ def step (st : St) (ts : List String) : St × String :=
             match iv.mapM String.toNat?, hintsOfList hl with
             | some inv, some _ =>
               if k < 1 || k > 1000000 || (mode != "same" && mode != "thread") ||
-                  (form != "cm2" && form != "cm3" && form != "cm3n") || (st.constrained && st.tmode != .proj) then
+                  (form != "cm2" && form != "cm3" && form != "cm3n") then
                 (st, "bad-op")
               else ({ st with nest := some ⟨k, form, a, b, hl, inv⟩ }, "ok")
             | _, _ => (st, "bad-op")
